@@ -96,12 +96,16 @@ def model_excel(lines):
     return {k: (v[0], sorted(v[1])) for k, v in out.items()}
 
 
+XLIM = {}
+
+
 def gantt_real(solution, mode):
     """(ylabels, bars) read from the matplotlib artists"""
     plt.close("all")
     ps.render_gantt_matplotlib(solution, show_plot=False, render_mode=mode)
     fig = plt.gcf()
     ax = fig.axes[0]
+    XLIM["last"] = tuple(ax.get_xlim())
     labels = [t.get_text() for t in ax.get_yticklabels()]
     bars = []
     texts = [t for t in ax.texts]
@@ -136,6 +140,11 @@ def overlapping_assignments(solution):
             for j in range(i + 1, len(a)):
                 if a[i][1] < a[j][2] and a[j][1] < a[i][2] and (a[i][2] - a[i][1] >= 2 or a[j][2] - a[j][1] >= 2):
                     return True
+        # the same situation with a zero-length assignment: its cell falls inside the merged range of the longer one and
+        # is silently lost instead of raising
+        for z in r.assignments:
+            if z[2] == z[1] and any(x[2] - x[1] >= 2 and x[1] <= z[1] < x[2] for x in a):
+                return True
     return False
 
 
@@ -193,6 +202,21 @@ def run_case(driver, script, rng, use_z3=True, what=("df", "excel", "gantt", "js
             vals[nm] = z3.is_true(v)
         elif srt == "Int" and z3.is_int_value(v):
             vals[nm] = v.as_long()
+    if rng.random() < 0.6 and real.problem.delta_time is None and real.problem.horizon is None:
+        # a stretched copy of the schedule: every non-negative instant multiplied by 9, 11 or 13, so that the chart and
+        # the sheets also see horizons near and above 100 and bars that end at the horizon (the exporters read a
+        # solution object, whatever problem it solves; only for problems without a fixed horizon, whose reported horizon
+        # is read from the interpretation and scales with it)
+        k = rng.choice([9, 11, 13, 17, 19, 23])
+        vals = {n: (v * k if isinstance(v, int) and not isinstance(v, bool) and v >= 0 else v) for n, v in vals.items()}
+        from harness import sm as _sm
+        try:
+            with smrun.silent():
+                solution = s.build_solution(_sm.FakeModel(dict(vals)))
+        except Exception as e:  # noqa: BLE001
+            return diffs + [f"build_solution raised {type(e).__name__}: {e} on a stretched schedule"], n
+        if stats is not None:
+            stats["out_stretched_schedules"] = stats.get("out_stretched_schedules", 0) + 1
     vals = solch.rename_auto(real, vals)
     equiv = "EquivalentIndicator" in real.problem.indicators
     line = solch.build_line(vals, cal)
@@ -221,6 +245,17 @@ def run_case(driver, script, rng, use_z3=True, what=("df", "excel", "gantt", "js
                     diffs.append(f"csv row {line} vs task {t.name} {t.start} {t.end} {t.duration} {t.scheduled}")
                 if line[1] != str(t.assigned_resources):
                     diffs.append(f"csv resources {line[1]} vs {t.assigned_resources}")
+            # any one-character separator: the export parsed back with that delimiter has the fields of the default one
+            for sep in ("\t", "|", " ", ";"):
+                try:
+                    alt = list(csv.reader(io.StringIO(solution.to_csv(separator=sep)), delimiter=sep))
+                except Exception as e:  # noqa: BLE001
+                    diffs.append(f"to_csv(separator={sep!r}) raised {type(e).__name__}: {e}")
+                    continue
+                if alt != rd:
+                    diffs.append(f"to_csv(separator={sep!r}) read back with that delimiter differs from the default export: "
+                                 f"{alt[:2]} vs {rd[:2]}")
+                    break
             fn = os.path.join(tmp, "x.csv")
             solution.to_csv(csv_filename=fn, separator=";")
             if open(fn).read().replace(";", ",") != text.replace(";", ",") and not any("," in str(t.assigned_resources) for t in solution.tasks.values()):
@@ -279,6 +314,13 @@ def run_case(driver, script, rng, use_z3=True, what=("df", "excel", "gantt", "js
                 except Exception as e:  # noqa: BLE001
                     diffs.append(f"render_gantt_matplotlib({mode}) raised {type(e).__name__}: {e}")
                     continue
+                lo, hi = XLIM.get("last", (None, None))
+                # (a zero-length item is a marker centred on its instant: half of it may lie beyond an end of the axis)
+                cut = [b for b in bars if lo is not None and b[2] > 2 and
+                       (b[1] < round(lo * 20) or b[1] + b[2] > round(hi * 20))]
+                if cut:
+                    diffs.append(f"gantt {mode}: bar {cut[0]} (row, x*20, width*20, label, label x*20) lies outside the visible "
+                                 f"x range [{lo}, {hi}]: it is not drawn from its start to its end")
                 key = "mode task" if mode == "Task" else "mode resource"
                 i0 = lines.index(key)
                 seg = []
